@@ -77,9 +77,9 @@ SLICE_DONORS = {
     'MatchMapping._all': ('{1: a}', '{1: a, 2: b}', '{}'),
     'BoolOp.values': ('a and b', 'a or b', 'x'),
     'Compare._all': ('a < b', 'x', 'a is not b == c'),
-    'arguments._all': ('a', 'a, b=1', '*, k', ''),
-    'Call._args': ('a', 'a, k=v', 'k=v, **kw', ''),
-    'ClassDef._bases': ('A', 'A, m=M', ''),
+    'arguments._all': ('a', 'a, b=1', '*, k', '', '**kw', 'x, /', '*v', 'p=1', 'q, /, r'),
+    'Call._args': ('a', 'a, k=v', 'k=v, **kw', '', '*s', '**d'),
+    'ClassDef._bases': ('A', 'A, m=M', '', '*bs', '**kw'),
     'Delete.targets': ('a', 'a, b.c', 'a[0], b'),
 }
 
@@ -336,7 +336,7 @@ GRID_OPTSETS = ({}, {'docstr': False}, {'docstr': 'strict'}, {'trivia': 'all'}, 
                 {'pep8space': False}, {'elif_': False}, {'pars': True}, {'trivia': False})
 
 
-def slice_edit_grid(programs, tier, shard, nshards, seed, optsets=GRID_OPTSETS, thin=1, only_ops=None):
+def slice_edit_grid(programs, tier, shard, nshards, seed, optsets=GRID_OPTSETS, thin=1, only_ops=None, all_donors=False):
     """Deterministic grid of one-step slice cases: every container of every program x {insert at each position, append, extend, prepend, put_slice and
     delete of each single element, delete of everything} x two donors x option sets."""
 
@@ -366,7 +366,7 @@ def slice_edit_grid(programs, tier, shard, nshards, seed, optsets=GRID_OPTSETS, 
                 if only_ops and op not in only_ops:
                     continue
 
-                for ds in range(min(nd, 2)) if not op.startswith(('del', 'get_')) else (0,):
+                for ds in range(nd if all_donors else min(nd, 2)) if not op.startswith(('del', 'get_')) else (0,):
                     for oi, o in enumerate(optsets):
                         k += 1
 
